@@ -25,7 +25,8 @@ RULE = ('span pairs: for list / tuple / mixed-hashable spans every old span of l
         'for int) x object strict flag x strict argument, rotating deterministically; containers and partly solved '
         'models alternate; variable sets rotate over every NumPy kind: float64/int64/bool/<U2; int8-32 and uint8-64; '
         'float16/32, complex64/128, <U5, bytes S3; object (lists, dicts), datetime64, timedelta64; TracerMixin models '
-        '(Trace objects). Plus seeded random longer pairs, and the '
+        '(Trace objects); variables named like class members (size, values, copy, eval, reindex, nbytes, NAMES, LAGS) and '
+        'underscore twins (Tw / _Tw / __Tw). Plus seeded random longer pairs, and the '
         'pandas mixin with default arguments. distinct = distinct (span type, old, new, configuration, class); '
         'non-trivial = reindex returns an object')
 TRUSTED = ['labels cross to the model as equivalence classes under Python == / hash',
@@ -63,16 +64,26 @@ VALUES = {
     'O': None,     # fresh lists per build: see build()
     'D': ['2000-01-01', 'NaT', '2000-01-03', '1999-12-31', '2000-02-01', '2001-01-01'],
     'TD': [1, -2, 3, 0, 5, 7],
+    # variables named like members of the classes, and underscore twins (`Tw` is stored under '_Tw', which is also
+    # the NAME of the variable `_Tw`): legal names that only a careless getattr(self, name) confuses
+    'size': [1.5, 2.5, -2.0, 4.25, 0.5, 8.0], 'values': [3, -1, 4, 1, -5, 9], 'copy': [0.5, 1.5, 2.5, 3.5, 4.5, 5.5],
+    'eval': [True, False, True, True, False, True], 'reindex': ['ab', 'c', 'de', 'f', 'gh', 'i'],
+    'nbytes': [7, 8, 9, 10, 11, 12], 'NAMES': [9.0, 8.0, 7.0, 6.0, 5.0, 4.0], 'LAGS': [1, 2, 3, 4, 5, 6],
+    'Tw': [10.0, 11.0, 12.0, 13.0, 14.0, 15.0], '_Tw': [-1.0, -2.0, -3.0, -4.0, -5.0, -6.0],
+    '__Tw': [100, 200, 300, 400, 500, 600],
 }
 DTYPES = {'F': float, 'I': int, 'B': bool, 'S': '<U2', 'I8': np.int8, 'I16': np.int16, 'I32': np.int32,
           'U8': np.uint8, 'U16': np.uint16, 'U32': np.uint32, 'U64': np.uint64, 'F16': np.float16, 'F32': np.float32,
           'C64': np.complex64, 'C128': np.complex128, 'S5': '<U5', 'Y3': 'S3', 'O': object, 'D': 'datetime64[D]',
-          'TD': 'timedelta64[D]'}
+          'TD': 'timedelta64[D]', 'size': float, 'values': int, 'copy': float, 'eval': bool, 'reindex': '<U2',
+          'nbytes': np.int32, 'NAMES': float, 'LAGS': int, 'Tw': float, '_Tw': float, '__Tw': int}
 VARSETS = [
     ['F', 'I', 'B', 'S'],
     ['I8', 'I16', 'I32', 'U8', 'U16', 'U32', 'U64', 'F'],
     ['F16', 'F32', 'C64', 'C128', 'S5', 'Y3'],
     ['O', 'D', 'TD', 'I32', 'S5'],
+    ['size', 'values', 'copy', 'eval', 'reindex', 'nbytes', 'NAMES', 'LAGS'],
+    ['Tw', '_Tw', '__Tw', 'size', 'F'],
 ]
 
 
@@ -156,6 +167,7 @@ CONFIGS = [
     {'I8': 300, 'F16': 1.5},
     {'U8': -1, 'C128': True},
     {'fill_value': 3, 'I16': None, 'F32': None, 'O': None},
+    {'size': 9.5, 'values': 4, 'eval': True, 'reindex': 'zz', 'NAMES': 0.25, '_Tw': 1.25, 'Tw': 2.5, '__Tw': 7},
 ]
 STRICT_ARGS = [None, None, True, False]
 
@@ -707,6 +719,8 @@ def config_sweep():
                 for sa in (None, True, False):
                     for is_model in (False, True):
                         for varset in range(len(VARSETS)):
+                            if varset and (sa is False or (strict and sa) or p['span_kind'] in ('np_int', 'mixed')):
+                                continue      # the full strict lattice and all five pairs only for the base variable set
                             case = dict(p)
                             case.update({'kind': 'reindex', 'config': c, 'is_model': is_model, 'strict': strict,
                                          'strict_arg': sa, 'probe': True, 'varset': varset})
@@ -749,7 +763,7 @@ def mixin_cases():
             if kind == 'list_str':
                 specs = [(o, [min(x, 3) for x in n]) for o, n in specs if max(o) < 3]
         for j, (old, new) in enumerate(specs):
-            for varset in ((0, 1, 2, 3) if j < 2 else (j % len(VARSETS),)):
+            for varset in (tuple(range(len(VARSETS))) if j < 2 else (j % len(VARSETS),)):
                 yield {'kind': 'mixin', 'span_kind': kind, 'old': old, 'new': new, 'config': 0, 'is_model': True,
                        'strict': False, 'strict_arg': None, 'probe': False, 'varset': varset}
 
@@ -808,18 +822,27 @@ def check_tracer(ctx, rep):
         rep.case(json.dumps(case, sort_keys=True), nontrivial=(outcome[0] == 'ok'))
 
 
-def run(ctx, rep):
+def _part(ctx, rep):
+    """One worker's share: every `parts`-th enumerated case and its share of the random cases."""
     quick = ctx.tier == 'quick'
-    cases = list(enumerate_cases(ctx.tier)) + list(config_sweep()) + list(same_span_cases())
-    for chunk in range(0, len(cases), 5000):
-        check_cases(ctx, rep, cases[chunk:chunk + 5000])
+    cases = (list(enumerate_cases(ctx.tier)) + list(config_sweep()) + list(same_span_cases()))[ctx.part::ctx.parts]
+    for chunk in range(0, len(cases), 4000):
+        check_cases(ctx, rep, cases[chunk:chunk + 4000])
     rng = ctx.sub_rng('random')
-    n_random = (2000 if quick else 40000) * ctx.scale
-    for chunk in range(0, n_random, 5000):
-        check_cases(ctx, rep, [random_case(rng) for _ in range(min(5000, n_random - chunk))])
-    check_mixin(ctx, rep)
-    check_tracer(ctx, rep)
-    rep.notes.append(f'enumerated {len(cases)} (span pair, configuration) cases; random {n_random}; mixin {len(list(mixin_cases()))}')
+    n_random = ((2000 if quick else 40000) * ctx.scale) // ctx.parts
+    for chunk in range(0, n_random, 4000):
+        check_cases(ctx, rep, [random_case(rng) for _ in range(min(4000, n_random - chunk))])
+    if ctx.part == 0:
+        check_mixin(ctx, rep)
+        check_tracer(ctx, rep)
+
+
+def run(ctx, rep):
+    import framework
+    framework.parallel(_part, ctx, rep, parts=min(8, ctx.workers))
+    n_enum = sum(1 for _ in enumerate_cases(ctx.tier)) + sum(1 for _ in config_sweep()) + sum(1 for _ in same_span_cases())
+    rep.notes.append(f'enumerated {n_enum} (span pair, configuration) cases; random {(2000 if ctx.tier == "quick" else 40000) * ctx.scale}; '
+                     f'mixin {len(list(mixin_cases()))}; tracer {len(list(tracer_cases()))}; 8 worker processes')
     rep.exhaustive = False
 
 
